@@ -274,6 +274,17 @@ func (inc *Incarnation) gate(kind string, effect bool) {
 	}
 }
 
+// deliveryDelay lets the scenario stretch the delivery of a watch event to one watcher (the streams of the other
+// watchers go on): watch streams are asynchronous, so every relative order of deliveries to different watchers is legal
+func (inc *Incarnation) deliveryDelay() {
+	if inc.dead.Load() {
+		return
+	}
+	if d := inc.w.delay.Load(); d != nil {
+		(*d)("watch.deliver")
+	}
+}
+
 // rpcTap is called before every unary Atomix RPC issued through this incarnation's stores, in the caller's
 // goroutine. Goroutines of the system under test (controller tasks, handlers) are parked here once the
 // incarnation is dead, and the process can be killed just before its n-th Atomix write: that addresses the
